@@ -277,7 +277,7 @@ def run_property(pid: str, tier: str) -> int:
             continue
         key = (f.check, f.obligation)
         seen_keys[key] = seen_keys.get(key, 0) + 1
-        if seen_keys[key] <= 2:
+        if seen_keys[key] <= 2 and len(reported) < 12:
             reported.append(f)
     os.makedirs(os.path.join(VERIF, "replays"), exist_ok=True)
     lines = []
